@@ -1,6 +1,6 @@
 SPECIFICATION Spec
 CONSTANTS
-  ShapeIds = {"s2x2"}
+  ShapeIds = {"s2x2", "q1x3"}
   PickedIds = {"p1"}
   Mols = {"dna"}
   MaxDepth = 2
